@@ -273,7 +273,9 @@ def wl_C14(rng, w, cfg, index):
     cfg['p_final_serialise'] = 0.0
     kit = Kit(rng, w, cfg)
     elem = gen.pick_elements(rng, 1, index)[0]
-    checked = rng.random() < 0.85
+    checked = rng.random() < 0.7
+    if not checked:
+        wts.update({'deep': 4.0, 'remove': 4.0})
 
     def program():
         c = dict(cfg, nsteps=rng.randint(2, 9), root_checked=checked)
@@ -290,7 +292,10 @@ def wl_C14(rng, w, cfg, index):
             src = w.path_of(rng.choice(subs))
         pool = w.detached_of('d0')
         det = [k for k, n in enumerate(pool) if n.parent is None]
-        if det and rng.random() < 0.5:
+        with_kids = [k for k in det if pool[k].children]
+        if with_kids:
+            det = with_kids
+        if det and rng.random() < (0.9 if with_kids else 0.4):
             # a subtree that was removed / replaced out earlier: a detached element is a document of its own
             yield {'op': 'DEEPCOPY', 'a': 1, 'p': ['d0'], 'reuse': rng.choice(det), 'reuse_doc': 'd0', 'doc': 'd2'}
         yield {'op': 'DEEPCOPY', 'a': 1, 'p': src, 'doc': 'd1'}
